@@ -358,11 +358,17 @@ class DirectoryRecord:
         bytes_to_skip = 0
         if self.xa_record is not None:
             bytes_to_skip = XARecord.length()
-        self.dr_len = self.rock_ridge.new(is_first_dir_record_of_root, rr_name,
-                                          file_mode, rr_symlink_target,
-                                          rr_version, rr_relocated_child,
-                                          rr_relocated, rr_relocated_parent,
-                                          bytes_to_skip, self.dr_len, {}, date_seconds)
+        try:
+            self.dr_len = self.rock_ridge.new(is_first_dir_record_of_root, rr_name,
+                                              file_mode, rr_symlink_target,
+                                              rr_version, rr_relocated_child,
+                                              rr_relocated, rr_relocated_parent,
+                                              bytes_to_skip, self.dr_len, {}, date_seconds)
+        except pycdlibexception.PyCdlibInternalError:
+            # The ISO9660 name leaves no room in the directory record for even
+            # the smallest Rock Ridge system use area; that is a problem with
+            # the name the caller gave, not an internal one.
+            raise pycdlibexception.PyCdlibInvalidInput('The name is too long to fit into a Rock Ridge directory record')
 
         # For files, we are done
         if not self.isdir:
@@ -493,6 +499,10 @@ class DirectoryRecord:
             self.dr_len += XARecord.length()
 
         self.dr_len += (self.dr_len % 2)
+
+        if self.dr_len > 255:
+            # The length of a directory record is recorded in a single byte.
+            raise pycdlibexception.PyCdlibInvalidInput('The name is too long to fit into a directory record')
 
         if self.is_root:
             self._printable_name = '/'.encode(vd.encoding)
